@@ -457,6 +457,7 @@ func genHist(r *Rand) Input {
 				// the reorganisation is noticed while the next slot's chain is under way: after its
 				// prepare job or after its message job (slots[0] = cur+1 is a slot of this period)
 				op.Mid, op.MidStage = &rf, r.Range(1, 2)
+				op.Fire.SelSlow = false // one thing at a time: the refresh is what happens in the middle of this chain
 				tag(fmt.Sprintf("hist:refresh-mid-chain:%d", op.MidStage))
 			}
 			in.Hist = append(in.Hist, op)
